@@ -29,13 +29,13 @@ CHECKS = {
   technique="deterministic simulation with fault injection at process level: seeded command lines x corrupted storage images x chunked delivery against the unmodified binary; crash-freedom oracle"),
 "C12": dict(
   category="exploration",
-  text="Per generated diploid call set and configuration, ~19 executions that each perturb one dimension (container, explicit BGZF block layout incl. empty blocks and 1-byte blocks, --threads 1..16, transport path / stdin-file / pre-filled pipe, getrandom-derived hash seed, environment and cwd, repetition) are compared with the canonical execution: stdout bytes + exit status of the real binary (L2), spectrum bits in-process (L1, where hash seeds are also a controlled dimension through an in-process getrandom seam). Sampling of workloads and variants; thread count and layout are seeded, the interleaving of noodles-bgzf worker threads is not owned by the simulator.",
-  design_ref="DESIGN.md section 6 / C12",
-  note="SFS_ALLOW_STDIN=1 in every run. Diploid call sets with GT in every record only. Chunking held benign (C18's dimension). BGZF worker interleaving is real OS scheduling inside a dependency; the oracle is insensitive to it by construction.",
-  technique="deterministic simulation: seeded configurations/schedules with simulated getrandom (hash seeds), environment and transport construction; determinism-across-executions oracle"),
+  text="Two engines. (1) Per generated diploid call set and configuration, ~19 executions that each perturb one dimension (container, explicit BGZF block layout incl. empty blocks and 1-byte blocks, --threads 1..16, transport path / stdin-file / pre-filled pipe, getrandom-derived hash seed, environment and cwd, repetition) are compared with the canonical execution: stdout bytes + exit status of the real binary (L2), spectrum bits in-process (L1, where hash seeds are also a controlled dimension through an in-process getrandom seam). (2) Thread schedules: the real create path runs over multi-block BGZF input with 2..8 threads under shuttle's seeded random / PCT schedulers, which own every interleaving of the reader with the BGZF inflater threads (a vendored copy of the noodles-bgzf worker pool takes its threads and channels from shuttle); every explored schedule must give the single-threaded result, a failing schedule is persisted and replays exactly. Sampling of workloads, variants and schedules.",
+  design_ref="DESIGN.md section 6 / C12, section 12",
+  note="SFS_ALLOW_STDIN=1 in every run. Diploid call sets with GT in every record only. Chunking held benign (C18's dimension). In engine (1) the BGZF worker interleaving is real OS scheduling (oracle insensitive to it); engine (2) controls it, on a vendored copy of the dependency's worker pool whose only change is the thread/channel runtime (crossbeam multi-consumer receiver modelled as mpsc receiver behind a mutex).",
+  technique="deterministic simulation: seeded configurations with simulated getrandom/environment/transport (simctl + LD_PRELOAD shim) and seeded thread-schedule exploration with replayable schedules (shuttle)"),
 "C10": dict(
   category="fault_enumeration",
-  text="For each generated call set + configuration one fault kind (source I/O error, ploidy error in a selected / unselected sample, strict violation; at process level also malformed VCF lines, truncated BCF records, corrupted BGZF blocks and shim read errors at record boundaries) is placed at every record index of the stream in turn (exhaustive per case for streams <= 40 records, sampled positions above), optionally followed by a second fault; conservation (mass + skipped = records), strict-mode first-failure and all-or-nothing are judged on every run. Call sets and configurations are sampled.",
+  text="For each generated call set + configuration one fault kind (source I/O error, ploidy error in a selected / unselected sample, strict violation; at process level also malformed VCF lines, truncated BCF records, corrupted BGZF blocks and shim read errors at record boundaries) is placed at every record index of the stream in turn (exhaustive per case for streams <= 40 records, sampled positions above), optionally followed by a second fault, at verbosity 0..2 (-v flags / logger level); conservation (mass + skipped = records), strict-mode first-failure and all-or-nothing are judged on every run. Call sets and configurations are sampled.",
   design_ref="DESIGN.md section 6 / C10",
   note="'Would be skipped' is taken from the tool's own non-strict run. For malformed/corrupt records only the all-or-nothing clause is applied. L1 uses a simulated genotype source (stub) under the real site reader and Runner; L2 the real binary.",
   technique="deterministic simulation with fault injection: exhaustive placement of record-stream faults over a simulated genotype source and crafted files; conservation and all-or-nothing oracles"),
@@ -71,7 +71,10 @@ CHECKS = {
   technique="deterministic simulation with fault injection: seeded chunk schedules + exhaustive first-chunk and fault-offset sweeps over SimRead/SimWrite (in-process) and an LD_PRELOAD syscall shim (process level)"),
 }
 
+EXPECTED_CLAIMED = ["C07", "C10", "C11", "C12", "C16", "C17", "C18", "C19"]
+
 def main():
+    assert sorted(CHECKS) == EXPECTED_CLAIMED, "claimed set changed unexpectedly: %s" % sorted(CHECKS)
     commits = subprocess.run(["git","-C","/repo","log","--format=%h %s"],capture_output=True,text=True).stdout.splitlines()
     hook_commits = [c.split()[0] for c in commits if c.split(' ',1)[1].startswith("verif hook")]
     checks = []
@@ -104,6 +107,11 @@ def main():
         "add_only": True,
       },
       "engines": [{
+        "name": "simsh",
+        "path": "/verif/simsh",
+        "serves_properties": ["C12"],
+        "kind_free_text": "schedule exploration: shuttle's seeded random and PCT schedulers own every interleaving of the BGZF reader thread with its inflater threads (vendored noodles-bgzf worker pool on shuttle primitives, /verif/vendor/noodles-bgzf); failing schedules are persisted to a file and replayed with shuttle::replay_from_file",
+      }, {
         "name": "simctl",
         "path": "/verif/sim",
         "serves_properties": sorted(CHECKS),
